@@ -69,6 +69,8 @@ def ops(fp):
         "to_pandas_cols": ("read", ["c1", "s"], lambda pf: digest(pf.to_pandas(columns=["c1", "s"]))),
         "to_pandas_filter": ("read", COLS, lambda pf: digest(pf.to_pandas(filters=[("c0", ">", 7002)], row_filter=True))),
         "to_pandas_cat": ("read", COLS, lambda pf: digest(pf.to_pandas(categories=["k"]))),
+        # the same read with categorical columns switched off: per-call options must not travel through the handle
+        "to_pandas_nocat": ("read", COLS, lambda pf: digest(pf.to_pandas(categories=[]))),
         "statistics": ("read", COLS, lambda pf: digest(pf.statistics)),
         "dtypes": ("read", COLS, lambda pf: digest({k: str(v) for k, v in pf.dtypes.items()})),
         "count": ("read", [], lambda pf: pf.count()),
@@ -221,10 +223,12 @@ def _run(ev, work, thorough, seed):
         pairs = [(a, b) for a in ("slice", "pick") for b in names] + \
                 [(a, b) for a in ("filter_t", "filter_u", "count_t") for b in ("filter_t", "filter_u", "count_t")] + \
                 [(a, b) for a in ("head", "iter", "statistics", "to_pandas_cols", "pickle")
-                 for b in ("to_pandas", "slice", "pickle", "statistics")]
+                 for b in ("to_pandas", "slice", "pickle", "statistics")] + \
+                [(a, b) for a in ("to_pandas_nocat", "to_pandas", "dtypes") for b in ("to_pandas_nocat", "to_pandas", "to_pandas_cat")
+                 if a != b]
     jobs = []
     for (a, b) in pairs:
-        heavy = a in ("iter", "to_pandas", "to_pandas_filter", "to_pandas_cat", "head", "filter_t", "filter_u", "slice_read")
+        heavy = a in ("iter", "to_pandas", "to_pandas_filter", "to_pandas_cat", "to_pandas_nocat", "head", "filter_t", "filter_u", "slice_read")
         stride = 1 if not heavy else (2 if thorough else 5)
         jobs.append((len(jobs), fn, a, b, False, stride))
     # (opcode-level preemption is not used: under f_trace_opcodes the traced operation itself fails with TypeError at
